@@ -478,7 +478,7 @@ func genExprEnv(r *rng) *exprEnv {
 		env.ref[name] = rv{k: 'i', i: i64}
 		env.ints = append(env.ints, name)
 	}
-	fs := []float64{2.5, -0.5, 0, 1, 3, 1e10, 0.1, 9007199254740992, -7.25, 64}
+	fs := []float64{2.5, -0.5, 0, 1, 3, 1e10, 0.1, 9007199254740992, -7.25, 64, math.NaN(), math.Inf(1), math.Inf(-1), math.Copysign(0, -1)}
 	f64 := fs[r.n(len(fs))]
 	f32 := float32(fs[r.n(len(fs))])
 	kvs = append(kvs, kv{"f64", vF64(f64)}, kv{"f32", vF32(f32)})
